@@ -16,6 +16,7 @@ import (
 	"go/token"
 	"go/types"
 	"math/big"
+	"strings"
 )
 
 type Mode int
@@ -69,6 +70,7 @@ type Arith struct {
 	mode       Mode
 	needUF     map[string][2]interface{} // uninterpreted bit operators used (int mode)
 	iv         map[string]ivl            // conservative value intervals of int-mode terms
+	resolve    func(string) string       // name -> defining term (looks through named abbreviations)
 	wrapSigned bool                      // contract flag wraps_signed: signed arithmetic wraps (hash-like code)
 	// ovf is set by BinOp when a signed result may leave its type's range: the
 	// condition "result is in range". Code emits it as a safety obligation (signed
@@ -344,6 +346,34 @@ func (a *Arith) BinOp(op token.Token, x, y string, w int, signed bool) (string, 
 				r := fmt.Sprintf("(mod %s %s)", y, pow2(k).String())
 				a.setIv(r, big.NewInt(0), c)
 				return r, nil
+			}
+		}
+	}
+	if op == token.OR || op == token.XOR {
+		// (t * 2^k) | y  with 0 <= y < 2^k  is  t*2^k + y  (disjoint bits)
+		for _, pr := range [][2]string{{x, y}, {y, x}} {
+			hiName, lo := pr[0], pr[1]
+			hi := hiName
+			if a.resolve != nil {
+				hi = a.resolve(hiName)
+			}
+			if strings.HasPrefix(hi, "(* ") && strings.HasSuffix(hi, ")") {
+				args := strings.Fields(hi[3 : len(hi)-1])
+				if len(args) >= 2 {
+					if c, ok := isIntLiteral(args[len(args)-1]); ok && c.Sign() > 0 && new(big.Int).And(c, new(big.Int).Sub(c, big.NewInt(1))).Sign() == 0 {
+						if li, ok := a.getIv(lo); ok && li.lo.Sign() >= 0 && li.hi.Cmp(c) < 0 {
+							hi2, okh := a.getIv(hi)
+							if !okh {
+								hi2, okh = a.getIv(hiName)
+							}
+							if okh && hi2.lo.Sign() >= 0 {
+								r := fmt.Sprintf("(+ %s %s)", hiName, lo)
+								a.setIv(r, hi2.lo, new(big.Int).Add(hi2.hi, li.hi))
+								return r, nil
+							}
+						}
+					}
+				}
 			}
 		}
 	}
